@@ -1,6 +1,6 @@
 (** C16 property theorems (statements only; proofs in Proofs_C16*.v). *)
 From Coq Require Import ZArith List Bool.
-From AwkV Require Import Base Layout Valid Types.
+From AwkV Require Import Base Layout Valid Types Proofs_ToList.
 From AwkBuffers Require Import Buffers Proofs_C16 Proofs_C16b Proofs_C16c Proofs_C16d.
 Import ListNotations.
 Open Scope Z_scope.
@@ -19,7 +19,7 @@ Theorem from_buffers_type : forall fixed c c', from_buffers_gen fixed (to_buffer
 Proof. exact from_buffers_type_thm. Qed.
 Print Assumptions from_buffers_type.
 
-Theorem buffers_roundtrip_partial : forall c, Valid None c -> frag16 c = true ->
+Theorem buffers_roundtrip_partial : forall c, Valid None c -> frag16 c = true -> Proofs_ToList.chars_ok c = true ->
   exists c', from_buffers (to_buffers c) = Ok c' /\ to_list c' = to_list c /\ type_of c' = type_of c /\ clen c' = clen c.
 Proof. exact buffers_roundtrip_partial_thm. Qed.
 Print Assumptions buffers_roundtrip_partial.
